@@ -580,6 +580,7 @@ class Interp:
 
     def exec_if(self, st: ast.If, env: dict) -> Optional[dict]:
         tv = self.eval(st.test, env)
+        self.note_truth(tv, st.test)
         c = self.truth(tv)
         self.event("branch", st, cond=c)
         d = self.decide(c)
@@ -626,6 +627,25 @@ class Interp:
         env.clear()
         env.update(j)
         return env
+
+    def note_truth(self, v: Val, node):
+        """remember what kind of value is truth-tested at this place: a test that sees None on one visit and a number that
+        derives from the data on another treats a legitimate 0 as 'nothing there'"""
+        if node is None:
+            return
+        kind = None
+        if isinstance(v, NoneV):
+            kind = "none"
+        elif isinstance(v, Sc) and v.e is not None and v.e[0] not in ("cmp", "bool", "and", "or", "not") \
+                and not (v.e[0] == "red" and v.e[1] in ("all", "any")):
+            kind = "data-number" if any(x[0] == "in" for x in sym.walk(v.e)) else "number"
+        if kind is None:
+            return
+        tk = self.__dict__.setdefault("truth_kinds", {})
+        rec = tk.setdefault(id(node), dict(node=node, kinds=set(), fi=self.frames[-1].fi if self.frames else None, example=None))
+        rec["kinds"].add(kind)
+        if kind == "data-number" and rec["example"] is None:
+            rec["example"] = v.e
 
     def truth(self, v: Val) -> Expr:
         if isinstance(v, Sc):
@@ -1473,6 +1493,7 @@ class Interp:
             if isinstance(n.op, ast.UAdd):
                 return v
             if isinstance(n.op, ast.Not):
+                self.note_truth(v, n.operand)
                 return Sc(sym.Not(self.truth(v)))
             if isinstance(n.op, ast.Invert):
                 return arrays.unop(sym.Not, v)
@@ -1492,7 +1513,8 @@ class Interp:
                 return Sc(f(*[v.e for v in vals]))
             # value-returning and/or: `ax or plt.gca()`
             out = vals[-1]
-            for v in reversed(vals[:-1]):
+            for v, vn in zip(reversed(vals[:-1]), reversed(n.values[:-1])):
+                self.note_truth(v, vn)
                 t = self.truth(v)
                 d = self.decide(t)
                 if isinstance(n.op, ast.Or):
@@ -1501,7 +1523,9 @@ class Interp:
                     out = out if d is True else (v if d is False else self.join_cond(t, out, v))
             return out
         if isinstance(n, ast.IfExp):
-            c = self.truth(self.eval(n.test, env))
+            tv_ = self.eval(n.test, env)
+            self.note_truth(tv_, n.test)
+            c = self.truth(tv_)
             d = self.decide(c)
             if d is True:
                 return self.eval(n.body, env)
@@ -2046,9 +2070,11 @@ def _clone_env(env: dict) -> dict:
             return n
         if isinstance(v, Arr):
             n = Arr(v.axes, v.elem, v.kind, v.uid)
-            for a in ("flat_of",):
+            for a in ("flat_of", "bucket_order", "bucket_sorted_over"):
                 if hasattr(v, a):
                     setattr(n, a, getattr(v, a))
+            if is_bucket_family(v):
+                n.bucket_root = bucket_root(v)  # the per-position lists themselves are shared by every copy of the outer list
             memo[k] = n
             return n
         if isinstance(v, Blocks):
